@@ -10,7 +10,7 @@ import (
 
 // ---- C03: parsing is total ---------------------------------------------------
 
-var c03vocab = []string{"x", "a.b", "1", "2.5", `"s"`, "`b`", ".", "=", "+", "-", "!", "*", "/", "%", "<", "<=", ">", ">=", "==", "!=", "&&", "||", "~=", "&",
+var c03vocab = []string{"x", "a.b", "1", "2.5", `"s"`, "`b`", `"C:\temp\d+"`, `"q\"q\\"`, "`r\\`", `"\`, ".", "=", "+", "-", "!", "*", "/", "%", "<", "<=", ">", ">=", "==", "!=", "&&", "||", "~=", "&",
 	"<%", "<%#", "<%=", "%>", ",", ";", ":", "(", ")", "{", "}", "[", "]", "fn", "let", "true", "if", "else", "return", "for", "in", "continue", "break", "nil", "@", "#c\n", "T"}
 
 var c03frames = [][2]string{{"<% ", " %>"}, {"<%= ", ""}, {"<% if (a) { %>", " "}, {"x<% <% ", " %>"}}
@@ -41,7 +41,7 @@ func init() {
 	register("C03", func(e *Env) {
 		parsePrelude()
 		e.perShard = 300
-		e.rep.Rule = "Parse on: every token sequence of length <= k over a 51-token vocabulary in 4 framings (closed tag, unclosed output tag, inside an if block, nested opener) - all judged by the recover/watchdog oracle, a seeded sample also re-parsed by the model (program dump / error lines compared); random token soup up to 60 tokens; byte mutations of valid templates; nesting towers to depth 256; plush.Parse / plush.Render / NewTemplate+Exec with the cache off and on over histories (failing input, then valid ones, then the failing one again); non-trivial = produced a program or at least one syntax error after lexing >= 2 tokens; distinct by input"
+		e.rep.Rule = "Parse on: every token sequence of length <= k over a 55-token vocabulary (incl. string literals with backslashes before ordinary bytes, escaped quotes and a lone backslash) in 4 framings (closed tag, unclosed output tag, inside an if block, nested opener) - all judged by the recover/watchdog oracle, a seeded sample also re-parsed by the model (program dump / error lines compared); random token soup up to 60 tokens; byte mutations of valid templates; nesting towers to depth 256; plush.Parse / plush.Render / NewTemplate+Exec with the cache off and on over histories (failing input, then valid ones, then the failing one again); non-trivial = produced a program or at least one syntax error after lexing >= 2 tokens; distinct by input"
 		k := 2
 		if e.Thorough() {
 			k = 3
